@@ -38,6 +38,8 @@ type SEnv struct {
 	locals  func(name string) *SVal
 	where   string
 	depth   int
+	bound   map[string]bool // quantifier-bound names shadow locals
+	pre     func(name string) *SVal
 }
 
 func (fr *Frame) newSpecEnv(h, old Heap) *SEnv {
@@ -64,6 +66,10 @@ func (e *SEnv) child() *SEnv {
 	n.vars = map[string]*SVal{}
 	for k, v := range e.vars {
 		n.vars[k] = v
+	}
+	n.bound = map[string]bool{}
+	for k := range e.bound {
+		n.bound[k] = true
 	}
 	return &n
 }
@@ -196,7 +202,7 @@ func (e *SEnv) coerce(v *SVal, t types.Type) *SVal {
 		return v
 	}
 	if w, _, ok := intInfo(t); ok {
-		return &SVal{V: &Val{T: bvLit(v.Const, w)}, T: t}
+		return &SVal{V: &Val{T: e.g.lit(v.Const, w)}, T: t}
 	}
 	e.fail("cannot use constant %s as %s", v.Const, t)
 	return nil
@@ -226,7 +232,7 @@ func (e *SEnv) constOf(c *types.Const) *SVal {
 	}
 	if w, _, ok := intInfo(t); ok {
 		bi, _ := new(big.Int).SetString(constant.ToInt(val).ExactString(), 10)
-		return &SVal{V: &Val{T: bvLit(bi, w)}, T: t}
+		return &SVal{V: &Val{T: e.g.lit(bi, w)}, T: t}
 	}
 	if isString(t) {
 		return &SVal{V: &Val{T: e.g.strLit(constant.StringVal(val))}, T: t}
@@ -307,6 +313,7 @@ func (e *SEnv) tr(x *SX) *SVal {
 			name = fmt.Sprintf("%s!%d", name, g.nfresh)
 			bs = append(bs, fmt.Sprintf("(%s %s)", name, g.sortOf(t)))
 			n.vars[b.Name] = &SVal{V: e.fr.wrap(name, t), T: t}
+			n.bound[b.Name] = true
 			_ = facts
 		}
 		body := n.boolTerm(x.Args[0])
@@ -328,13 +335,15 @@ func (e *SEnv) ident(x *SX) *SVal {
 		}
 		return &SVal{V: e.result, T: e.resultT}
 	}
+	if e.locals != nil {
+		if _, bound := e.bound[x.Tok]; !bound {
+			if v := e.locals(x.Tok); v != nil {
+				return v
+			}
+		}
+	}
 	if v, ok := e.vars[x.Tok]; ok {
 		return v
-	}
-	if e.locals != nil {
-		if v := e.locals(x.Tok); v != nil {
-			return v
-		}
 	}
 	if sf, ok := e.g.P.Contracts.SpecFuncs[x.Tok]; ok {
 		return &SVal{Spec: sf}
@@ -484,7 +493,7 @@ func (e *SEnv) index(x *SX) *SVal {
 		i := e.idx64(e.tr(x.Args[1]))
 		name, srt := g.elemArrName(t.Elem())
 		arr := g.heapArr(e.heap, name, srt)
-		term := fmt.Sprintf("(select (select %s (s_arr %s)) (bvadd (s_off %s) %s))", arr, base.V.T, base.V.T, i)
+		term := fmt.Sprintf("(select (select %s (s_arr %s)) %s)", arr, base.V.T, g.iadd("(s_off "+base.V.T+")", i))
 		return &SVal{V: e.fr.wrap(term, t.Elem()), T: t.Elem()}
 	case *types.Array:
 		i := e.idx64(e.tr(x.Args[1]))
@@ -524,7 +533,8 @@ func (e *SEnv) sliceExpr(x *SX) *SVal {
 		e.fail("slice expression on %s", base.T)
 	}
 	s := base.V.T
-	lo := bvInt(0, 64)
+	g := e.g
+	lo := g.ilit(0)
 	hi := fmt.Sprintf("(s_len %s)", s)
 	if x.Args[1] != nil {
 		lo = e.idx64(e.tr(x.Args[1]))
@@ -532,7 +542,7 @@ func (e *SEnv) sliceExpr(x *SX) *SVal {
 	if x.Args[2] != nil {
 		hi = e.idx64(e.tr(x.Args[2]))
 	}
-	return &SVal{V: &Val{T: fmt.Sprintf("(mk_slice (s_arr %s) (bvadd (s_off %s) %s) (bvsub %s %s) (bvsub (s_cap %s) %s))", s, s, lo, hi, lo, s, lo)}, T: base.T}
+	return &SVal{V: &Val{T: fmt.Sprintf("(mk_slice (s_arr %s) %s %s %s)", s, g.iadd("(s_off "+s+")", lo), g.isub(hi, lo), g.isub("(s_cap "+s+")", lo))}, T: base.T}
 }
 
 func (e *SEnv) coerceTo(v *SVal, t types.Type) *SVal {
@@ -572,9 +582,15 @@ func (e *SEnv) unary(x *SX) *SVal {
 		if v.Const != nil {
 			return &SVal{Const: new(big.Int).Neg(v.Const)}
 		}
+		if e.g.intMode {
+			return &SVal{V: &Val{T: fmt.Sprintf("(- %s)", v.V.T)}, T: v.T}
+		}
 		return &SVal{V: &Val{T: fmt.Sprintf("(bvneg %s)", v.V.T)}, T: v.T}
 	case "^":
 		v := e.typed(e.tr(x.Args[0]))
+		if e.g.intMode {
+			e.fail("bitwise complement is not available in int mode specs")
+		}
 		return &SVal{V: &Val{T: fmt.Sprintf("(bvnot %s)", v.V.T)}, T: v.T}
 	case "*":
 		v := e.tr(x.Args[0])
@@ -631,6 +647,9 @@ func (e *SEnv) binary(x *SX) *SVal {
 		c := a.Const.Cmp(b.Const)
 		res := map[string]bool{"==": c == 0, "!=": c != 0, "<": c < 0, "<=": c <= 0, ">": c > 0, ">=": c >= 0}[x.Tok]
 		return boolVal(strconv.FormatBool(res))
+	}
+	if e.g.intMode {
+		return e.binaryInt(x, a, b)
 	}
 	if x.Tok == "<<" || x.Tok == ">>" {
 		a = e.typed(a)
@@ -701,6 +720,60 @@ func (e *SEnv) binary(x *SX) *SVal {
 	return &SVal{V: &Val{T: fmt.Sprintf("(%s %s %s)", op, at, bt)}, T: a.T}
 }
 
+// binaryInt: spec arithmetic on mathematical integers (no wrap-around, no obligations).
+func (e *SEnv) binaryInt(x *SX, a, b *SVal) *SVal {
+	if x.Tok == "<<" || x.Tok == ">>" {
+		if b.Const == nil {
+			e.fail("shift by a non-constant in int mode")
+		}
+		a = e.typed(a)
+		p := pow2(uint(b.Const.Uint64())).String()
+		if x.Tok == "<<" {
+			return &SVal{V: &Val{T: "(* " + a.V.T + " " + p + ")"}, T: a.T}
+		}
+		return &SVal{V: &Val{T: "(div " + a.V.T + " " + p + ")"}, T: a.T}
+	}
+	a, b = e.unify(a, b)
+	at, bt := a.V.T, b.V.T
+	if at == "" && a.V.A != nil {
+		at = e.g.ptrTerm(a.V.A)
+	}
+	if bt == "" && b.V.A != nil {
+		bt = e.g.ptrTerm(b.V.A)
+	}
+	switch x.Tok {
+	case "==", "!=":
+		if e.g.sortOf(a.T) != e.g.sortOf(b.T) {
+			e.fail("comparison of %s and %s in %s", a.T, b.T, x)
+		}
+		if x.Tok == "==" {
+			return boolVal(fmt.Sprintf("(= %s %s)", at, bt))
+		}
+		return boolVal(fmt.Sprintf("(not (= %s %s))", at, bt))
+	}
+	if _, _, ok := intInfo(a.T); !ok {
+		e.fail("operator %s on %s", x.Tok, a.T)
+	}
+	switch x.Tok {
+	case "<", "<=", ">", ">=":
+		return boolVal(fmt.Sprintf("(%s %s %s)", x.Tok, at, bt))
+	case "+", "-", "*":
+		return &SVal{V: &Val{T: fmt.Sprintf("(%s %s %s)", x.Tok, at, bt)}, T: a.T}
+	case "/":
+		return &SVal{V: &Val{T: truncDiv(at, bt)}, T: a.T}
+	case "%":
+		return &SVal{V: &Val{T: fmt.Sprintf("(- %s (* %s %s))", at, bt, truncDiv(at, bt))}, T: a.T}
+	case "&":
+		if b.Const != nil {
+			if k, ok := isMask(b.Const); ok {
+				return &SVal{V: &Val{T: "(mod " + at + " " + pow2(k).String() + ")"}, T: a.T}
+			}
+		}
+	}
+	e.fail("operator %s is not available in int mode specs", x.Tok)
+	return nil
+}
+
 func (e *SEnv) callExpr(x *SX) *SVal {
 	g := e.g
 	fn := x.Args[0]
@@ -710,6 +783,15 @@ func (e *SEnv) callExpr(x *SX) *SVal {
 		n := e.child()
 		n.heap = e.old
 		return n.tr(args[0])
+	}
+	if fn.Op == "id" && fn.Tok == "pre" {
+		if e.pre == nil || len(args) != 1 || args[0].Op != "id" {
+			e.fail("pre(x) is only available in loop invariants, on a variable name")
+		}
+		if v := e.pre(args[0].Tok); v != nil {
+			return v
+		}
+		return e.tr(args[0]) // variable not modified by the loop
 	}
 	f := e.tr(fn)
 	switch {
@@ -742,6 +824,9 @@ func (e *SEnv) convertTo(v *SVal, t types.Type) *SVal {
 	fw, fs, fok := intInfo(v.T)
 	tw, _, tok := intInfo(t)
 	if fok && tok {
+		if e.g.intMode {
+			return &SVal{V: &Val{T: v.V.T}, T: t}
+		}
 		return &SVal{V: &Val{T: convInt(v.V.T, fw, fs, tw)}, T: t}
 	}
 	if e.g.sortOf(v.T) == e.g.sortOf(t) {
@@ -859,7 +944,7 @@ func (e *SEnv) builtinSpec(name string, args []*SX, x *SX) *SVal {
 			return &SVal{V: &Val{T: fmt.Sprintf("(slen %s)", v.V.T)}, T: intT}
 		case *types.Map:
 			_, _, c := g.mapArrNames(t)
-			return &SVal{V: &Val{T: fmt.Sprintf("(ite (= %s 0) #x0000000000000000 (select %s %s))", v.V.T, g.heapArr(e.heap, c, g.heapSort[c]), v.V.T)}, T: intT}
+			return &SVal{V: &Val{T: fmt.Sprintf("(ite (= %s 0) %s (select %s %s))", v.V.T, g.ilit(0), g.heapArr(e.heap, c, g.heapSort[c]), v.V.T)}, T: intT}
 		case *types.Array:
 			return &SVal{Const: big.NewInt(t.Len())}
 		}
@@ -913,8 +998,8 @@ func (e *SEnv) builtinSpec(name string, args []*SX, x *SX) *SVal {
 		arr := g.heapArr(e.heap, nm, srt)
 		g.nfresh++
 		q := fmt.Sprintf("q$i!%d", g.nfresh)
-		return boolVal(fmt.Sprintf("(and (= (slen %s) (s_len %s)) (forall ((%s (_ BitVec 64))) (! (=> (bvult %s (slen %s)) (= (sat %s %s) (select (select %s (s_arr %s)) (bvadd (s_off %s) %s)))) :pattern ((sat %s %s)))))",
-			s.V.T, b.V.T, q, q, s.V.T, s.V.T, q, arr, b.V.T, b.V.T, q, s.V.T, q))
+		return boolVal(fmt.Sprintf("(and (= (slen %s) (s_len %s)) (forall ((%s %s)) (! (=> %s (= (sat %s %s) (select (select %s (s_arr %s)) %s))) :pattern ((sat %s %s)))))",
+			s.V.T, b.V.T, q, g.IS(), g.inRange(q, "(slen "+s.V.T+")"), s.V.T, q, arr, b.V.T, g.iadd("(s_off "+b.V.T+")", q), s.V.T, q))
 	case "ptr":
 		v := e.tr(args[0])
 		return &SVal{V: &Val{T: e.refTerm(v)}, T: types.Typ[types.UnsafePointer]}
@@ -986,7 +1071,7 @@ func (e *SEnv) havocTarget(m *SX, nh Heap) Heap {
 				}
 				name, srt := g.elemArrName(sl.Elem())
 				nh2 := nh.clone()
-				nh2[name] = g.define(name, srt, fmt.Sprintf("(store %s (s_arr %s) %s)", g.heapArr(nh, name, srt), v.V.T, g.fresh("mod$elems", "(Array "+idxSort+" "+g.sortOf(sl.Elem())+")")))
+				nh2[name] = g.define(name, srt, fmt.Sprintf("(store %s (s_arr %s) %s)", g.heapArr(nh, name, srt), v.V.T, g.fresh("mod$elems", "(Array "+g.IS()+" "+g.sortOf(sl.Elem())+")")))
 				return nh2
 			case "mapof":
 				v := e.tr(m.Args[1])
@@ -1119,6 +1204,12 @@ func (fr *Frame) specBoolAt(x *SX, h Heap, b *ssa.BasicBlock, c Clause, _ bool) 
 	}
 	env.where = fmt.Sprintf("%s:%d", c.File, c.Line)
 	env.locals = func(name string) *SVal { return fr.localAt(name, b, h) }
+	env.pre = func(name string) *SVal {
+		if m := fr.preVals[b.Index]; m != nil {
+			return m[name]
+		}
+		return nil
+	}
 	return env.boolTerm(x)
 }
 
